@@ -586,6 +586,27 @@ func (si *symInterp) stmt(st ast.Stmt, fr *symFrame, s *symState) []*symState {
 		case token.ASSIGN, token.DEFINE:
 			if len(st.Rhs) == 1 {
 				if call, ok := stripParens(st.Rhs[0]).(*ast.CallExpr); ok {
+					// v, flag := a.SubWithUnderflow(b) / a.AddWithOverflow(b): one path per flag value
+					if fn, _ := typeutil.Callee(fr.info, call).(*types.Func); fn != nil && isCurrencyRecv(fn) && len(st.Lhs) == 2 && (fn.Name() == "SubWithUnderflow" || fn.Name() == "AddWithOverflow") {
+						if sel, ok := stripParens(call.Fun).(*ast.SelectorExpr); ok && len(call.Args) == 1 {
+							recv, arg := si.eval(sel.X, fr, s), si.eval(call.Args[0], fr, s)
+							if recv != nil && arg != nil && recv.L != nil && arg.L != nil {
+								okSt, badSt := s, s.fork()
+								k := int64(1)
+								if fn.Name() == "SubWithUnderflow" {
+									k = -1
+									okSt.facts = append(okSt.facts, symFact{A: recv.L, B: arg.L, Op: ">=", Text: shortLin(recv.L) + " >= " + shortLin(arg.L)})
+									badSt.facts = append(badSt.facts, symFact{A: recv.L, B: arg.L, Op: "<", Text: shortLin(recv.L) + " < " + shortLin(arg.L)})
+								}
+								si.store(st.Lhs[0], &SV{L: recv.L.addScaled(arg.L, k)}, fr, okSt)
+								si.store(st.Lhs[1], &SV{Bool: "const:false"}, fr, okSt)
+								unknownCounter++
+								si.store(st.Lhs[0], &SV{L: Lin{fmt.Sprintf("?wrapped#%d", unknownCounter): 1}}, fr, badSt)
+								si.store(st.Lhs[1], &SV{Bool: "const:true"}, fr, badSt)
+								return []*symState{okSt, badSt}
+							}
+						}
+					}
 					if outs := si.callPaths(call, fr, s); outs != nil {
 						for _, o := range outs {
 							if o.st.panics {
@@ -787,6 +808,21 @@ func statesOf(os []symOutcome) []*symState {
 
 // cond decides a condition when it only depends on known nil-ness: 1 true, 2 false, 0 unknown.
 func (si *symInterp) cond(e ast.Expr, fr *symFrame, s *symState) int {
+	// a flag whose value this path fixed (see SubWithUnderflow)
+	{
+		x, neg := stripParens(e), false
+		if ue, ok := x.(*ast.UnaryExpr); ok && ue.Op == token.NOT {
+			x, neg = stripParens(ue.X), true
+		}
+		if id, ok := x.(*ast.Ident); ok {
+			if v := si.eval(id, fr, s); v != nil && strings.HasPrefix(v.Bool, "const:") {
+				if (v.Bool == "const:true") != neg {
+					return 1
+				}
+				return 2
+			}
+		}
+	}
 	be, ok := stripParens(e).(*ast.BinaryExpr)
 	if !ok || (be.Op != token.NEQ && be.Op != token.EQL) {
 		return 0
